@@ -35,6 +35,7 @@ type Case struct {
 	DataCoq   string // Gallina [data] term when the input is a provider or a factory
 	FEChecked bool   // the cross-front-end oracle applied
 	FEDiff    string // ... and what it found
+	Sanitize  string // what Issues.SanitizeMap / SanitizeList got wrong for this result
 	FEPure    string // the request was modified by Parse / a second Parse of it differs
 	FENested  bool   // ... in a schema with a nested struct read from a flat source (the recorded finding)
 }
@@ -399,6 +400,9 @@ func NewCase(g *Gen, id int, forceValidate *bool) *Case {
 	for try := 0; try < 8; try++ {
 		c.Obs, c.Order, c.Known = run()
 		c.Repeats = append(c.Repeats, c.Obs.canon(n))
+		if c.Sanitize == "" {
+			c.Sanitize = SanitizeDiff(&c.Obs)
+		}
 		if c.Known {
 			break
 		}
